@@ -28,7 +28,9 @@ CONSTANTS Txs,          \* transaction templates available to Mint
           MaxTxPerBlock,
           MaxBad,       \* at most this many deliberately bad blocks
           MaxDeliver,   \* bound on Deliver calls (re-deliveries included)
-          FixFailedReorg \* TRUE: model the repaired reorganizeChain (restore old chain)
+          FixFailedReorg, \* TRUE: model the repaired reorganizeChain (restore old chain)
+          WithProducers   \* TRUE: the prefix also funds four 6000 ELA outputs G1..G4 for the
+                          \* producer registrations R1..R4 (unique resources, Mempool.tla)
 
 VARIABLES blocks,    \* <<[parent, txs, bad]>> indexed by block id
           phase,     \* "mint" | "run"
@@ -45,6 +47,7 @@ view == <<blocks, phase, known, orphans, main, ndeliv, strand>>
 (* Transaction templates.  An outpoint is <<tx, index>>; Funds are outputs *)
 (* of the prefix.                                                          *)
 Funds == {<<"F1", 0>>, <<"F2", 0>>}
+           \cup (IF WithProducers THEN {<<"G1", 0>>, <<"G2", 0>>, <<"G3", 0>>, <<"G4", 0>>} ELSE {})
 
 \* inputs as a sequence (a repeated element = the same outpoint twice)
 TxIns(t) == CASE t = "T1" -> << <<"F1", 0>> >>
@@ -54,6 +57,10 @@ TxIns(t) == CASE t = "T1" -> << <<"F1", 0>> >>
               [] t = "T5" -> << <<"X", 0>> >>                  \* never created
               [] t = "T6" -> << <<"F2", 0>> >>
               [] t = "T7" -> << <<"T1", 1>>, <<"F2", 0>> >>    \* conflicts with T6
+              [] t = "R1" -> << <<"G1", 0>> >>                 \* producer registrations:
+              [] t = "R2" -> << <<"G2", 0>> >>                 \* inputs never collide, the
+              [] t = "R3" -> << <<"G3", 0>> >>                 \* unique resources do (Res)
+              [] t = "R4" -> << <<"G4", 0>> >>
               [] OTHER -> <<>>
 
 \* outputs: sequence of [addr, zero]
@@ -64,7 +71,19 @@ TxOuts(t) == CASE t = "T1" -> << [addr |-> "A", zero |-> FALSE], [addr |-> "B", 
                [] t = "T5" -> << [addr |-> "A", zero |-> FALSE] >>
                [] t = "T6" -> << [addr |-> "A", zero |-> FALSE], [addr |-> "A", zero |-> TRUE] >>
                [] t = "T7" -> << [addr |-> "A", zero |-> FALSE] >>
+               [] t \in {"R1", "R2", "R3", "R4"} ->      \* deposit + change
+                    << [addr |-> "D", zero |-> FALSE], [addr |-> "K", zero |-> FALSE] >>
                [] OTHER -> <<>>
+
+\* unique resources a transaction claims: producer owner key, node key, nickname
+Res(t) == CASE t = "R1" -> {"owner:1", "node:1", "nick:a"}
+            [] t = "R2" -> {"owner:1", "node:2", "nick:b"}    \* same owner as R1
+            [] t = "R3" -> {"owner:2", "node:1", "nick:c"}    \* same node as R1
+            [] t = "R4" -> {"owner:2", "node:2", "nick:a"}    \* same nickname as R1
+            [] OTHER -> {}
+\* CheckDuplicateTx refuses two registrations with one owner or one node key in a
+\* block (a repeated nickname inside one block is not looked at)
+KeyRes(t) == {r \in Res(t) : r \notin {"nick:a", "nick:b", "nick:c"}}
 
 FundAddr == "K"
 InSet(t) == {TxIns(t)[i] : i \in 1..Len(TxIns(t))}
@@ -97,6 +116,8 @@ UtxoOf(chain) == IF chain = <<>> THEN Funds
                  ELSE ApplyBlock(UtxoOf(SubSeq(chain, 1, Len(chain) - 1)), chain[Len(chain)])
 
 TxsOf(chain) == UNION {SeqSet(blocks[chain[i]].txs) : i \in 1..Len(chain)}
+\* resources registered by the chain (DPoS state: producers of every state count)
+ResOn(chain) == UNION {Res(t) : t \in TxsOf(chain)}
 
 \* where a transaction is recorded on the chain (0 = not on chain)
 TxHeight(chain, t) == IF \E i \in 1..Len(chain) : t \in SeqSet(blocks[chain[i]].txs)
@@ -118,6 +139,7 @@ Sane(b) ==
     /\ \A i, j \in 1..Len(ts) : i # j => ts[i] # ts[j]
     /\ \A i \in 1..Len(ts) : ~HasDupInput(ts[i])
     /\ \A i, j \in 1..Len(ts) : i # j => InSet(ts[i]) \cap InSet(ts[j]) = {}
+    /\ \A i, j \in 1..Len(ts) : i # j => KeyRes(ts[i]) \cap KeyRes(ts[j]) = {}
 
 \* CheckBlockContext on top of `chain`: every input is unspent in the state
 \* before the block (outputs of the same block do not count), then the
@@ -125,6 +147,7 @@ Sane(b) ==
 CtxValid(b, chain) ==
     /\ \A t \in SeqSet(blocks[b].txs) : InSet(t) \subseteq UtxoOf(chain)
     /\ \A t \in SeqSet(blocks[b].txs) : t \notin TxsOf(chain)
+    /\ \A t \in SeqSet(blocks[b].txs) : Res(t) \cap ResOn(chain) = {}
     /\ blocks[b].bad # "reward"
 
 \* A chain (path from the prefix) is valid iff every block is sane and
